@@ -368,12 +368,22 @@ def _gen_ell(rng, names):
     e2 = rng.choice([-13, -10, -7, -3, 0, 0, 3, 3, 7, 7])
     C = 2.0 ** e2
     shape = rng.choice(["random", "random", "decisive", "decisive", "decisive", "decisive", "touch",
-                        "same-shape", "identical"])
+                        "same-shape", "identical", "sigma-asym", "sigma-asym"])
+    if shape == "sigma-asym":
+        e2 = rng.choice([0, 3, 7])
+        C = 2.0 ** e2
     L1 = _rand_L(rng, m, e2)
     L2 = L1 if shape in ("same-shape", "identical") else _rand_L(rng, m, e2)
     om = rng.choice([1.0, 0.3, 1e-1, 1e-2])
     a1 = rng.uniform(0.1, 1.5) * om
     a2 = a1 if shape == "identical" else rng.uniform(0.1, 1.5) * om
+    big_second = rng.random() < 0.5
+    if shape == "sigma-asym":
+        # one ellipsoid 16× larger than the other, equal radii: taking Σ₂ (or α₂) from the wrong
+        # object changes the support of E₂ by much more than the margin chosen below
+        a1 = a2 = rng.uniform(0.8, 1.5)
+        Ls = _rand_L(rng, m, e2 - 4)
+        L1, L2 = (Ls, L2) if big_second else (L1, Ls)
     c1 = [rng.uniform(-2, 2) * C for _ in range(m)]
     c2 = list(c1) if shape == "identical" else [rng.uniform(-2, 2) * C for _ in range(m)]
     sk = rng.choice(["facet", "facet", "float", "zero", "vec"])
@@ -389,10 +399,14 @@ def _gen_ell(rng, names):
         slack = [rng.uniform(0, 1) * eps for _ in range(N)]
     case = {"kind": "ell", "cone": cname, "W": W, "c1": _flt(c1), "L1": L1, "a1": float(a1), "c2": _flt(c2),
             "L2": L2, "a2": float(a2), "slack": slack, "slack_kind": sk, "shape": shape}
-    if shape in ("decisive", "touch"):
+    if shape in ("decisive", "touch", "sigma-asym"):
         e = interior_dir(W)
-        rho = 0.0 if shape == "touch" else rng.choice([-1, 1]) * rng.choice(
-            [1e-5 * max(1.0, C), 1e-4 * C, 1e-3 * C * om, 1e-2 * C * om, 0.1 * C * om, 0.05 * C, 0.2 * C, 0.5 * C])
+        if shape == "sigma-asym":
+            rho = (1 if big_second else -1) * rng.choice([0.02, 0.05]) * C * a2
+        else:
+            rho = 0.0 if shape == "touch" else rng.choice([-1, 1]) * rng.choice(
+                [1e-5 * max(1.0, C), 1e-4 * C, 1e-3 * C * om, 1e-2 * C * om, 0.1 * C * om, 0.05 * C, 0.2 * C,
+                 0.5 * C])
         for _ in range(4):
             sol = _ell_numeric(case)
             if sol is None:
